@@ -498,7 +498,7 @@ fn c03_case(idx: usize, spec: &[ModeSpec], cache: &TableCache, out: &mut String,
         out.push_str("expect equivdfa ok\n");
         // track A: the Lean model of the minimizer must produce exactly the logged output
         out.push_str("minimize\n");
-        out.push_str("expect minimize same\n");
+        out.push_str("expect minimize done\n");
         st.count("minimizer_pairs", 1);
         st.count("states_before", a.states.len());
         st.count("states_after", b.states.len());
